@@ -84,6 +84,13 @@ def const_repr(v):
     return None
 
 
+class Poison:
+    """value of an assignment the engine could not interpret; using it makes the path undecided, not using it is harmless"""
+
+    def __init__(self, why):
+        self.why = why
+
+
 class TermEngine(Engine):
     """Engine whose expression layer builds uninterpreted terms."""
 
@@ -128,6 +135,10 @@ class TermEngine(Engine):
         raise Unsupported("comparison of non-scalars")
 
     def ev(self, e, env, pc):
+        if isinstance(e, ast.Name) and isinstance(env.get(e.id), Poison):
+            raise Unsupported("use of uninterpreted value: " + env[e.id].why)
+        if isinstance(e, ast.Attribute) and ast.unparse(e) == "np.finfo(float).eps":
+            return uf("np.finfo(float).eps", z3.RealSort())
         if isinstance(e, ast.Constant) and isinstance(e.value, float):
             return e.value
         if isinstance(e, ast.UnaryOp) and isinstance(e.op, ast.USub):
@@ -186,6 +197,13 @@ class TermEngine(Engine):
         return uf("pred:" + ast.unparse(e), z3.BoolSort(), *[env[n] for n in names])
 
     def stmt(self, s, env, pc):
+        if isinstance(s, ast.Assign) and len(s.targets) == 1 and isinstance(s.targets[0], ast.Name):
+            try:
+                v = self.ev(s.value, env, pc)
+            except Unsupported as u:
+                v = Poison("%s = %s: %s" % (s.targets[0].id, ast.unparse(s.value)[:60], u))
+            env[s.targets[0].id] = v
+            return [(env, pc)]
         if isinstance(s, ast.If):
             c = self.cond(s.test, env, pc)
             return self.branch(c, s.body, s.orelse, env, pc, "line %d" % s.lineno)
@@ -213,7 +231,8 @@ class TermEngine(Engine):
                 return base
         if name is None:
             raise Unsupported("call %s" % ast.unparse(f))
-        if name in PRED or name.split(".")[-1] in PRED:
+        toq = getattr(self.c, "toqito_names", set())
+        if (name in PRED or name.split(".")[-1] in PRED) and name not in toq:
             return self.opaque_pred(e, env)
         args = [self.ev(a, env, pc) for a in e.args]
         kws = []
@@ -229,6 +248,9 @@ class TermEngine(Engine):
             c = const_repr(a) if not is_z3(a) else None
             if is_z3(a):
                 term_args.append(a)
+            elif isinstance(a, (list, tuple)) and any(is_z3(x) for x in a):
+                consts.append("list%d" % len(a))
+                term_args.extend(a)
             elif isinstance(a, (int, float)) and not isinstance(a, bool) and name in ("max", "min"):
                 term_args.append(a)
             elif c is not None:
